@@ -1,0 +1,59 @@
+//go:build verif
+
+package wsutil
+
+import "testing"
+
+// Spec validation for /verif (not a proof): the UTF-8 automaton the contracts are written
+// against (specUTF8Step, written from RFC 3629 section 4) on the boundary code points.
+func TestSpecVectors_RFC3629(t *testing.T) {
+	valid := [][]byte{
+		{0x00}, {0x7f}, // U+0000, U+007F
+		{0xc2, 0x80}, {0xdf, 0xbf}, // U+0080, U+07FF
+		{0xe0, 0xa0, 0x80}, {0xef, 0xbf, 0xbf}, // U+0800, U+FFFF
+		{0xed, 0x9f, 0xbf}, {0xee, 0x80, 0x80}, // U+D7FF, U+E000 (around the surrogates)
+		{0xf0, 0x90, 0x80, 0x80}, {0xf4, 0x8f, 0xbf, 0xbf}, // U+10000, U+10FFFF
+		[]byte("κόσμε"), []byte("Hello-µ@ßöäüàá-UTF-8!!"),
+	}
+	invalid := [][]byte{
+		{0x80}, {0xbf}, // lone continuation bytes
+		{0xc0, 0x80}, {0xc1, 0xbf}, // overlong two-byte forms
+		{0xe0, 0x80, 0x80}, {0xe0, 0x9f, 0xbf}, // overlong three-byte forms
+		{0xf0, 0x80, 0x80, 0x80}, {0xf0, 0x8f, 0xbf, 0xbf}, // overlong four-byte forms
+		{0xed, 0xa0, 0x80}, {0xed, 0xbf, 0xbf}, // surrogates U+D800, U+DFFF
+		{0xf4, 0x90, 0x80, 0x80}, {0xf5, 0x80, 0x80, 0x80}, // beyond U+10FFFF
+		{0xfe}, {0xff}, // never valid
+		{0xc2, 0x41}, // continuation expected
+	}
+	for _, p := range valid {
+		if s := utf8Fold(0, p, len(p)); s != 0 {
+			t.Errorf("% x: automaton ends in state %d, want accept (0)", p, s)
+		}
+		for j := 1; j <= len(p); j++ {
+			if utf8Fold(0, p, j) == 8 {
+				t.Errorf("% x: automaton rejects at %d", p, j)
+			}
+		}
+	}
+	for _, p := range invalid {
+		rej := false
+		for j := 1; j <= len(p); j++ {
+			if utf8Fold(0, p, j) == 8 {
+				rej = true
+			}
+		}
+		if !rej {
+			t.Errorf("% x: automaton never rejects", p)
+		}
+	}
+	// a truncated sequence is neither accepted nor rejected
+	for _, p := range [][]byte{{0xc2}, {0xe2, 0x82}, {0xf0, 0x9f, 0x98}} {
+		if s := utf8Fold(0, p, len(p)); s == 0 || s == 8 {
+			t.Errorf("% x: truncated sequence ends in state %d", p, s)
+		}
+	}
+	// the implementation's states map onto the automaton's
+	if absUTF8(utf8Accept) != 0 || absUTF8(utf8Reject) != 8 {
+		t.Errorf("absUTF8 does not map accept/reject to 0/8")
+	}
+}
